@@ -24,7 +24,7 @@ from ..common import Ctx
 from . import mesh_checks as mc
 
 C06_CLAUSES = {"marking", "marked-directions", "dorfler-closure", "call-failed", "tiling", "one-irregular",
-               "dyadic-descent", "only-refines", "duplicate-leaves"}
+               "dyadic-descent", "only-refines", "duplicate-leaves", "marking-shortest-prefix", "marked-both-directions"}
 
 THETAS = [(1, 16), (1, 4), (1, 2), (9, 16), (4, 5), (99, 100)]
 
@@ -56,15 +56,22 @@ CHECK_DEADLOCK FALSE
 """
 
 
-def marking_model(ctx, K, maxeta, aniso, rng, knife_only=False):
+_MODEL_CACHE = {}
+
+
+def marking_model(ctx, K, maxeta, aniso, rng, knife_only=False, pad_aniso=False):
     """Dorfler.tla exhaustive + replay of every state into the real code.
     knife_only: replay only the states where an integer partial sum equals theta^2 * total for a theta whose
     square is not representable (rounding decides the marking there, so the marking clause is not judged, but
     the call must still succeed and leave a legal mesh: clause call-failed and the state clauses)."""
     thset = "{" + ", ".join("<<%d, %d>>" % t for t in THETAS) + "}"
     dump = os.path.join(tlc._scratch(), "dorfler")
-    res = tlc.run_tlc("MCDorfler", CFG_DORFLER % (K, maxeta), timeout=1800, dump=dump,
-                      aux_files={"MCDorfler.tla": MC_DORFLER % thset})
+    if (K, maxeta) in _MODEL_CACHE:
+        res, cached = _MODEL_CACHE[(K, maxeta)]
+    else:
+        res = tlc.run_tlc("MCDorfler", CFG_DORFLER % (K, maxeta), timeout=1800, dump=dump,
+                          aux_files={"MCDorfler.tla": MC_DORFLER % thset})
+        cached = None
     st = {"K": K, "MaxEta": maxeta, "aniso": aniso, "tlc": res.stats()}
     if res.machinery_error:
         ctx.machinery_error("Dorfler.tla: " + res.machinery_error)
@@ -73,9 +80,16 @@ def marking_model(ctx, K, maxeta, aniso, rng, knife_only=False):
         ctx.violation("model:Dorfler:" + str(res.violated), "Dorfler.tla violates %s" % res.violated,
                       {"tlc_output_tail": res.output[-2000:]})
         return st
-    cases = [(tuple(s["eta"]), tuple(s["th"])) for s in tlc.read_dump(dump + ".dump")]
+    if cached is None:
+        cached = [(tuple(s["eta"]), tuple(s["th"])) for s in tlc.read_dump(dump + ".dump")]
+        _MODEL_CACHE[(K, maxeta)] = (res, cached)
+    cases = list(cached)
     if knife_only:
         cases = [(e, t) for e, t in cases if sum(e) > 0 and _knife(sum(e), t[0], t[1], _theta_float(*t))]
+    if pad_aniso:
+        # the same contributions fed to the anisotropic call: (time, space) pairs of (K + 1) / 2 leaves, one zero added
+        cases = [(e + (0,) * ((-len(e)) % 2), t) for e, t in cases]
+        K, aniso = K + (K % 2), True
     import shutil
     shutil.rmtree(os.path.dirname(dump), ignore_errors=True)
     st["cases"] = len(cases)
@@ -336,7 +350,7 @@ def run(prop, tier, seed):
         mk.append(marking_model(ctx, 5, 4, False, rng))
     else:
         mk.append(marking_model(ctx, 5, 4, False, rng, knife_only=True))
-    mk.append(marking_model(ctx, 6, 4 if not quick else 3, True, rng, knife_only=True))
+    mk.append(marking_model(ctx, 5, 4, False, rng, knife_only=True, pad_aniso=True))
     ctx.log("marking %s" % mk)
     fam = [((1, 2, False), 2, 3), ((1, 3, True), 2, 3), ((2, 2, False), 1, 2), ((1, 1, True), 3, 4)]
     ref = []
@@ -350,12 +364,19 @@ def run(prop, tier, seed):
         ctx.log("refine-ordered-anyorder %s" % st)
     tr = random_traces(ctx, tier, seed)
     ctx.log("traces %s" % {k: v for k, v in tr.items() if k != "per_layout"})
+    # the unmodified driver's own marking calls (real-valued indicators from the estimators)
+    from .. import loop_lib
+    drv = loop_lib.driver_block(ctx, [("Dirichlet", "UnitSquare", 0, "isotropic", "sobolev", 0, 2 if quick else 3),
+                                      ("MildSingular", "Circle", 0, "anisotropic", "sobolev", 0, 3 if quick else 4),
+                                      ("Dirichlet", "LShape", 1, "anisotropic", "sobolev-l2", 0, 2 if quick else 3)],
+                                {"dorfler"}, C06_CLAUSES)
+    ctx.log("driver %s" % drv)
     st_self = selftest(ctx)
     states = sum(m["tlc"]["distinct"] for m in mk) + sum(r["tlc"]["distinct"] for r in ref)
     trans = sum(m["tlc"]["generated"] for m in mk) + sum(r["tlc"]["generated"] for r in ref)
     ctx.cov = {
         "states": states, "transitions": trans,
-        "traces_validated_against_impl": sum(m.get("replayed", 0) for m in mk) + tr["traces"] + sum(r.get("code_states", 0) for r in ref),
+        "driver_runs": drv, "traces_validated_against_impl": len(drv) + sum(m.get("replayed", 0) for m in mk) + tr["traces"] + sum(r.get("code_states", 0) for r in ref),
         "samples": [mk[0].get("sample"), tr["samples"]],
         "exhaustive": True,
         "marking_models": mk, "refinement_models": ref, "random_traces": tr, "binding_selftest": st_self,
